@@ -524,4 +524,37 @@ theorem groth_complete_publiccoin (hG : ValidGroup G) {P : GrothPub} (hP : PubOk
           flat2 vT ++ (flat2 [vL] ++ (flat2 [vX] ++ (flat2 [vE] ++ [alpha]))) := by
         simp only [gVerifierCoins, t2, ← l2, ← x2, ← q2, List.flatMap_cons, List.flatMap_nil, List.append_nil]
       rw [← this]; exact hV
+/-! ### the stack-level verifiers (`TMCG_VerifyStackEquality_Hoogh / _Groth`) -/
+
+omit [Fact (Nat.Prime G.p.natAbs)] [Fact (Nat.Prime G.q.natAbs)] in
+/-- on stacks of group elements the stack-level rotation verifier is the rotation argument's verifier
+    (so the `vrhe_complete_*` theorems carry over) -/
+theorem hooghVerifyStack_eq (mode : Mode) (S : State) (s s2 : List Card) (hl : s.length = s2.length)
+    (hin : stacksInGroup S s s2 = true) : hooghVerifyStack mode S s s2 = vrheVerify mode S s s2 := by
+  simp [hooghVerifyStack, hl, hin]
+
+omit [Fact (Nat.Prime G.p.natAbs)] [Fact (Nat.Prime G.q.natAbs)] in
+/-- C05 at the stack level: a card component of either stack outside the group (not reduced, or not
+    of order dividing `q`, e.g. `p - x`) is refused before a single line is read or written -/
+theorem hooghVerifyStack_refuses (mode : Mode) (S : State) (s s2 : List Card) (st : St)
+    (hout : stacksInGroup S s s2 = false) :
+    run (hooghVerifyStack mode S s s2) st = .ok ⟨st.sent, false, false⟩ := by
+  by_cases hl : s.length = s2.length <;> simp [hooghVerifyStack, hl, hout, run, pure_apply]
+
+omit [Fact (Nat.Prime G.p.natAbs)] [Fact (Nat.Prime G.q.natAbs)] in
+theorem grothVerifyStack_eq (mode : Mode) (P : GrothPub) (s s2 : List Card) (hcg : s.length ≤ P.cg.length)
+    (hl : s.length = s2.length) (hin : stacksInGroup P.S s s2 = true) :
+    grothVerifyStack mode P s s2 = grothVerify mode P s s2 := by
+  have h1 : ¬ s.length > P.cg.length := by omega
+  simp only [grothVerifyStack]
+  rw [if_neg h1, if_neg (by simpa using hl)]
+  simp [hin]
+
+omit [Fact (Nat.Prime G.p.natAbs)] [Fact (Nat.Prime G.q.natAbs)] in
+theorem grothVerifyStack_refuses (mode : Mode) (P : GrothPub) (s s2 : List Card) (st : St)
+    (hout : stacksInGroup P.S s s2 = false) :
+    run (grothVerifyStack mode P s s2) st = .ok ⟨st.sent, false, false⟩ := by
+  by_cases h1 : s.length > P.cg.length <;> by_cases hl : s.length = s2.length <;>
+    simp [grothVerifyStack, h1, hl, hout, run, pure_apply]
+
 end Tmcg.Args
